@@ -97,6 +97,16 @@ Proof.
 Qed.
 Print Assumptions C17_strict_exception_number.
 
+(* the self-consistency errors record.validate reports (out of sync, column
+   index out of sync) carry the record's own line number, whatever the record *)
+Theorem C17_sync_errors_carry_record_line :
+  forall (C W : Type) (r : rec (payload C W)) (ln : option Z),
+    Forall (fun e => eline e = ln /\
+                     (etpe e = T_RECORD_OUT_OF_SYNC \/ etpe e = T_RECORD_COLUMN_INDEX_OUT_OF_SYNC))
+           (sync_errs r ln).
+Proof. intros C W r ln. exact (sync_errs_at_line r ln). Qed.
+Print Assumptions C17_sync_errors_carry_record_line.
+
 (* ---------- non-vacuity: the column line is the last line (the input that
    broke the pinned tree), and a defect on the second data line ---------- *)
 Definition t_sem : colsem unit unit :=
